@@ -42,3 +42,16 @@ Proof.
   apply (no_conflict_a L OK Hn t prems concl (extra :: prems) Hck Hac); [intros p Hp; right; exact Hp|exact Hm].
 Qed.
 Print Assumptions C10_monotone_all_structures.
+
+(* renaming over arbitrary structures: names of constants and variables are permuted (the renaming
+   comes with two-sided inverses), letters and predicates renamed by any maps fixing the system predicates *)
+From PT Require Import Tab.ARename.
+Theorem C10_rename_all_structures : forall L, fsound_ok L ->
+  (fl_hd L = false -> neg_flips_t (s_t (fl_S L)) = true) ->
+  forall R, pred_sys_fixed (pr R) ->
+  forall t prems concl,
+    gcheck L t (trunk (fl_hd L) 0 prems concl) [] = true -> gall_closed t = true ->
+    forall (M : amodel (fl_S L)), amodel_ok L M -> forall u ce,
+      ~ acountermodel (fl_S L) M u ce (map (rename (pr R)) prems) (rename (pr R) concl).
+Proof. exact rename_sound_a. Qed.
+Print Assumptions C10_rename_all_structures.
